@@ -9,7 +9,7 @@ NOT_APPLICABLE = {}
 TEXT = {
     "C18": {
         "text": "Exploration: the real protoio writers/readers are run on message sequences under every chunking of small streams "
-                "(exhaustive for streams <= 14 bytes) and seeded random chunkings of large ones, plus hostile streams (truncation at "
+                "(exhaustive for streams <= 14 bytes) and seeded random chunkings of large ones, every frame-body size from 0 to 4200 / 17000 for every writer and marshal path, plus hostile streams (truncation at "
                 "every offset, oversize and malformed lengths, random bytes); a round-trip/EOF/error-class/allocation oracle observes "
                 "every ReadMsg. Sampling is the right level for an input-quantified property of 200 lines of sequential code.",
         "note": "Trusts google.golang.org/protobuf for the message codec and runtime.MemStats.TotalAlloc (GC off, one goroutine) as allocation measure.",
@@ -32,7 +32,7 @@ TEXT = {
     "C05": {
         "text": "Exploration: for every group type and announcement point the real GetShareableChainKey/RegisterChainKey are driven with the intended recipient (each device), wrong recipients, every other group of the recipient, wrong claimed senders, "
                 "every single-bit flip/truncation/extension of the announcement; the monitor checks exact chain key and counter, that exactly the later messages open, and that refusals leave no chain key and open nothing. "
-                "The completeness half (every device ends up holding every other device's chain key) is monitored on activated group contexts of 2-4 members exchanging metadata by seeded delivery plans until a logical fixpoint.",
+                "The completeness half (every device ends up holding every other device's chain key) is monitored on activated group contexts of 2-4 members exchanging metadata by seeded delivery plans (whole heads or only an older part of a log, also to devices that have opened but not yet activated the group, each delivery followed until the store has announced its entries) until a logical fixpoint; a directed plan activates a second device of a member that holds another device's announcement but not yet that device's own entry.",
         "note": "Completeness is restated as bounded progress: judged at the fixpoint where all replicas hold all entries and handlers are idle; not an unbounded 'eventually'.",
         "technique": "runtime monitoring: accept/refuse oracle over an exhaustive manipulation catalogue + state matrix (IsChainKeyKnownForDevice) at logical quiescence",
     },
@@ -40,9 +40,9 @@ TEXT = {
         "text": "Exploration of schedules: N x M concurrent SealEnvelope calls (N up to 16) on one and several groups of each type with seeded delays/yields injected around every datastore access, a concurrent opener on the same store, under the Go race detector; "
                 "monitors record call/return events with one logical clock and every chain-key put; oracles: counters distinct and gap-free, history linearizable as fetch-and-increment (direct check and porcupine), every envelope opens to its payload, "
                 "message keys injective, stored counter monotone at every put, no race report in pkg/secretstore. Two further units: fault enumeration over the datastore accesses of a send workload (the k-th access fails once, for every k: the envelopes released to callers must still have distinct counters and open at the receiver) "
-                "and bursts of 16 concurrent first sends on a store instance freshly opened on an existing datastore (restart), 400-4000 rounds per group type under the race detector.",
+                "and bursts of 16 concurrent first sends on a store instance freshly opened on an existing datastore (restart), 400-4000 rounds per group type under the race detector; the fault workload interleaves the sends with chain-key sharing and PutGroup; a further unit stalls the chain-key write of the p-th send in the datastore, cancels the caller meanwhile, and lets the write through only after two more sends if the call returned early.",
         "note": "Schedules are sampled (real parallelism + injected delays), not enumerated; a race report in the anchored files is treated as a violation witness.",
-        "technique": "runtime monitoring: race detector + recorded client-boundary history checked by porcupine, a monotonicity hook on the datastore, and fault injection by enumeration of single datastore faults during sends",
+        "technique": "runtime monitoring: race detector + recorded client-boundary history checked by porcupine, a monotonicity hook on the datastore, fault injection by enumeration of single datastore faults during sends, and a stalled-write / cancelled-caller schedule forced through the datastore wrapper",
     },
     "C10": {
         "text": "Fault enumeration: scripted and seeded random workloads are recorded fault-free on a logging datastore; every mutation (put, delete, atomic batch commit) of each recording is then taken as a crash point: "
@@ -60,9 +60,9 @@ TEXT = {
     "C14": {
         "text": "Exploration: sessions mixing push and log delivery of the same messages in all six delivery orders, several senders and groups, key and reference windows of 2/5/100; an executable model (C02 window + reference window around the last message seen) "
                 "decides which push opens are demanded and what AlreadyReceived must be; bit flips of push payloads (exhaustive in thorough) and unknown/foreign references must be rejected; the log path must still open what push opened and vice versa. "
-                "A second unit drives OutOfStoreSeal/OutOfStoreReceive of the service and the standalone out-of-store service.",
+                "A second unit drives OutOfStoreSeal/OutOfStoreReceive of the service and the standalone out-of-store service. A third delivers different messages of one sender through the log path and the push path at the same time (rendezvous after the read of the window bounds in the datastore wrapper) and checks at quiescence that every counter inside the recorded window has its reference and that pushes inside it open.",
         "note": "Before any message of a sender was seen, a reference is demanded only inside both candidate windows (announcement counter / end of key window).",
-        "technique": "runtime monitoring: executable reference-window model checked online against random mixed push/log histories",
+        "technique": "runtime monitoring: executable reference-window model checked online against random mixed push/log histories; structural invariant (recorded window subset of stored references) after concurrent log/push deliveries",
     },
     "C03": {
         "text": "Exploration: for every event type of the protocol table (read at run time) and three group types a forgery catalogue (wrong signer key of each kind, signer swapped after signing, every bit flip of the signature, seeded flips of payload and box, "
@@ -73,9 +73,9 @@ TEXT = {
     },
     "C04": {
         "text": "Exploration: histories of metadata operations (exhaustive over a reduced account alphabet and over the contact-group and multi-member alphabets up to length 2-3, seeded random up to length 10-14; one writer, two causally ordered writers, two concurrent writers; account, contact and multi-member groups) are written through the real "
-                "MetadataStore API and replayed on fresh replicas by delivery plans (one batch, entry by entry, random compositions, both head orders) with a reopen at a random step and repeated re-indexing; every delivered prefix is compared with a reference latest-wins index, all replicas with the full set with each other.",
+                "MetadataStore API and replayed on fresh replicas by delivery plans (one batch, entry by entry, random compositions, both head orders) with a reopen at a random step and repeated re-indexing; every delivered prefix is compared with a reference latest-wins index, all replicas with the full set with each other. A second unit overlaps, on ONE replica, the end of a replication round with a local write (every pair of a reduced alphabet) and suspends either index update at its sync points inside UpdateIndex (instrumented copy) until the other has returned: the exposed state must equal what a fresh replica computes from the same entries.",
         "note": "Each history uses a fresh synthetic group object; delivery is a real OrbitDB replication batch (Sync + replicator) between stores sharing one mock IPFS node. Viewer-dependent parts (secrets-sent set, other member's alias) are not compared across members.",
-        "technique": "runtime monitoring: reference-model and replica-equality oracle over delivery plans, reopen and re-index of real OrbitDB logs",
+        "technique": "runtime monitoring: reference-model and replica-equality oracle over delivery plans, reopen and re-index of real OrbitDB logs, plus forced orders of overlapping index updates via sync points",
     },
     "C06": {
         "text": "Exploration: the real RequestUsingReaderWriter/ResponseUsingReaderWriter run against a scripted adversary that owns its own account: honest run, wrong target, 24 low-order/non-canonical X25519 encodings on either side alone and combined with cross-session replay of harvested proofs, "
@@ -98,7 +98,7 @@ TEXT = {
     },
     "C17": {
         "text": "Exploration: 20k-200k random (topic, seed, instant, interval) tuples incl. period boundaries for the pure functions; seeded rotation histories of two RotationInterval instances on a virtual clock (rotation.go's time.Now/time.Until are redirected by the build overlay) "
-                "crossing 0..many period boundaries with registration in different periods, judged by a period model; the same between two real OrbitDBMessageMarshaler instances; a thorough-tier real-time run with 1-2 s intervals whose observations are bracketed by clock reads.",
+                "crossing 0..many period boundaries with registration in different periods, judged by a period model; the same between two real OrbitDBMessageMarshaler instances, where every exchanged payload must also be refused by marshalers that own the topic's box key but whose rotation knows nothing of the value; a thorough-tier real-time run with 1-2 s intervals whose observations are bracketed by clock reads.",
         "note": "Instants >= 1970 and whole-second intervals. The grace-period cleanup timer runs on the real clock and does not fire during a history.",
         "technique": "runtime monitoring: period reference model over virtual-clock rotation histories and random pure-function inputs",
     },
@@ -116,13 +116,13 @@ TEXT = {
         "technique": "runtime monitoring: accept/refuse oracle over an exhaustive single-bit and field manipulation catalogue; descriptor-opens-nothing oracle; fault injection (enumerated datastore faults) while a group identity is created",
     },
     "C15": {
-        "text": "Exploration: random operation sequences against a reference FIFO / counter-ordered multiset (sequential contract); on sync-point-instrumented queue sources, scenarios of 1-2 producers x 1-3 items, a consumer and optional cancellation run un-perturbed, under profile jitter, under EVERY pair plan "
+        "text": "Exploration: random operation sequences against a reference FIFO / counter-ordered multiset (sequential contract; items handed out earlier are added again; a lone task found waiting for the queue's own mutex is a deadlock, decided from its goroutine state); on sync-point-instrumented queue sources, scenarios of 1-2 producers x 1-3 items, a consumer and optional cancellation run un-perturbed, under profile jitter, under EVERY pair plan "
                 "(one role suspended at a sync point until another passed one of its own) and under seeded jitter; oracles: conservation / exactly once / per-producer order, a lost-wake-up detector decided from goroutine and queue state, porcupine on every recorded history; a race-detector stress on the un-instrumented queues.",
         "note": "Pair forcing + jitter, not all interleavings; a race report in the queue sources counts as a violation.",
         "technique": "runtime monitoring: forced interleavings via sync points, lost-wake-up detector, porcupine linearizability check, race detector",
     },
     "C16": {
-        "text": "Exploration of schedules: the connectedness tracker (updater sequences of <= 3 associate/update operations, 1-2 waiters, cancellation), the Notify primitive (also waited on again after a wait that raced a cancellation), two waiters of one group of which one is cancelled before the updates, the lifecycle manager and the discovery peer cache run on sync-point-instrumented sources under un-perturbed, jitter and pair plans; "
+        "text": "Exploration of schedules: the connectedness tracker (updater sequences of <= 3 associate/update operations, 1-2 waiters, cancellation), the Notify primitive (also waited on again after a wait that raced a cancellation), two waiters of one group of which one is cancelled before the updates, the lifecycle manager and the discovery peer cache (also with a third task removing an earlier peer of the topic meanwhile) run on sync-point-instrumented sources under un-perturbed, jitter and pair plans; "
                 "a deadlock detector (all participants blocked, one in a mutex acquire) and a missed-update detector (updater finished, waiter parked, reference state differs from what the waiter saw) decide at quiescence defined by goroutine states; returned lists are compared with the entries that changed; cancellation must return negative.",
         "note": "The statement's static lock-order clause is outside this family; its dynamic counterpart is the deadlock detector under forced orderings. Pair forcing + jitter, not all interleavings.",
         "technique": "runtime monitoring: forced interleavings via sync points with deadlock and missed-update detectors at goroutine-state quiescence",
@@ -130,12 +130,12 @@ TEXT = {
     "C19": {
         "text": "Exploration: every method of the protocol service (by reflection over the server interface; streaming ones through an in-memory stream) is called in-process under recover with requests generated field by field from pools of edge values, values harvested from the live service and their corrupted variants, "
                 "in seeded sequences interleaved with activation/deactivation of the account group and other groups; a second unit sweeps every method one field at a time around a baseline request that is valid for the live service (unset, edge bytes, every harvested value and its corrupted copy, every defined and three undefined enum numbers, every known invitation under every group type), "
-                "with the account group active and again after its deactivation; the exported decode/decrypt helpers get random and malformed inputs. Only a panic (or a dead process) counts.",
+                "with the account group active and again after its deactivation; a third unit issues every short sequence of valid contact-request RPCs on a NEW account and follows the background handler that acts on them (its panic ends the process); the exported decode/decrypt helpers get random and malformed inputs. Only a panic (or a dead process) counts.",
         "note": "In-process calls: a recovered panic is the observation. Calls blocked on external services are cancelled after 3 s.",
         "technique": "runtime monitoring: reflection-driven request fuzzing plus one-field-at-a-time and pairwise sweeps around valid baselines of all RPC handlers in both activation states, with panic capture",
     },
     "C20": {
-        "text": "Exploration: seeded account histories on a real service (in every other account with logs forked into two heads, as concurrent writers leave them) are exported; the archive is parsed independently (key files, entries re-hashed against their file names, heads); it is restored into a fresh node and every log is compared (entry CIDs, heads, derived state) before anything is written there, "
+        "text": "Exploration: seeded account histories on a real service (in every other account with logs forked into two heads, as concurrent writers leave them) are exported; the archive is parsed independently (key files, entries re-hashed against their file names, heads); it is restored into a fresh node (the archive handed over in one piece, in 4096-byte chunks, in half reads, with data+EOF, byte by byte, rotating per account) and every log is compared (entry CIDs, heads, derived state) before anything is written there, "
                 "then a service is started on the restored node and the messages are listed; mutated archives (byte flips in entries/heads/keys, dropped/duplicated key files, duplicated/renamed entries, reordering, truncation, used store) must be rejected where the statement says so and never panic.",
         "note": "A restore waiting for entries that cannot come (mutations outside the rejection list) is released by cancelling the node and recorded, not judged.",
         "technique": "runtime monitoring: export/restore round trip with independent archive parsing, log/state equality oracle and archive mutation catalogue",
